@@ -2,6 +2,7 @@ import MechVerif.Driver.C20
 import MechVerif.Driver.C07
 import MechVerif.Driver.C15
 import MechVerif.Driver.C01
+import MechVerif.Driver.C03
 open MechVerif.Driver
 
 def dispatch (line : String) : String :=
@@ -11,6 +12,7 @@ def dispatch (line : String) : String :=
     | some "include" => runC20 fields obs
     | some "range" => runC15 fields obs
     | some "binop" | some "unop" => runC01 fields obs
+    | some "index" => runC03 fields obs
     | some "crc" | some "dmg" | some "sweep" | some "rt" | some "instrs" => runC07 fields obs
     | _ => ("bad-proto", "bad-proto", "-")
   m ++ "\t" ++ v ++ "\t" ++ r
